@@ -166,7 +166,27 @@ pub fn run_c06(ctx: &mut Ctx) {
         let mut s = 0; cuts.push(payload.len());
         for c in cuts { let mut a = s; while c - a > 65535 { recs.push(Rec::new(T_PARAMS, pre.id, payload[a..a + 65535].to_vec(), vec![])); a += 65535; } if c > a { recs.push(Rec::new(T_PARAMS, pre.id, payload[a..c].to_vec(), pad_bytes(&mut rng))); } s = c; }
         recs.push(Rec::new(T_PARAMS, pre.id, vec![], vec![]));
+        // a GetValues query among the preamble's records (before BeginRequest or between Params records) whose BODY may be far
+        // longer than the buffer while each of its pairs is small: complete pairs are released as they are parsed, so the
+        // bound on pair size is all that matters
+        let mut gv_len = 0usize;
+        if rng.chance(1, 2) {
+            let pmax = size.min(19).max(1);
+            let target = 1 + rng.usize_below((3 * eff).min(60_000));
+            let mut body = vec![];
+            while body.len() < target {
+                let known: &[&[u8]] = &[b"FCGI_MAX_CONNS", b"FCGI_MAX_REQS", b"FCGI_MPXS_CONNS"];
+                let (n, v): (Vec<u8>, Vec<u8>) = if pmax >= 15 && rng.chance(1, 3) { (rng.pick(known).to_vec(), vec![]) } else { let l = rng.usize_below(pmax + 1); (gen_name(&mut rng, l.min(1 + l / 2)), rng.bytes(l - l.min(1 + l / 2))) };
+                let e = nv_enc(&n, &v);
+                if body.len() + e.len() > 65535 { break; }
+                body.extend(e);
+            }
+            gv_len = body.len();
+            let at = rng.usize_below(recs.len());   // 0 = before BeginRequest; never after the final empty Params record
+            recs.insert(at, Rec::new(T_GETVALUES, 0, body, pad_bytes(&mut rng)));
+        }
         let wire = ser_all(&recs);
+        or.count(if gv_len == 0 { "getvalues=none" } else if gv_len > eff { "getvalues=longer-than-buffer" } else { "getvalues=fits" });
         let chs = [Chunking::Fill, Chunking::One, Chunking::All, Chunking::Cut(rng.usize_below(wire.len())), Chunking::Random(0), Chunking::Fixed(eff - 1), Chunking::Fixed(1 + rng.usize_below(eff))];
         for (k, ch) in chs.iter().enumerate() {
             if wire.len() > 2500 && matches!(ch, Chunking::One) { continue; }
